@@ -1,5 +1,6 @@
 import GateryModel.C18.Lemmas3
 import GateryModel.C18.Literal
+import GateryModel.C18.BigInt
 /-!
 # C18 — property theorems
 
@@ -15,9 +16,9 @@ Statements only — the proofs are in `C18/Lemmas.lean`, `Lemmas2.lean`, `Seq.le
 Covered by theorem: get/set/clear/toggle, insertNonStraddling, extractNonStraddling, insert, extract (straddling
 included), setRange/clearRange (3-segment split), copyRange (byte fast path + chunk loop), compareRange
 (DefaultConfig specialisation), resize, operator==, allOne/allZero/allDefined/anyDefined, extract(start,size),
-insert(state,…), append, and arbitrary operation sequences.
+insert(state,…), append, extractBigInt (≤ 64 bit path and word-aligned wide path), and arbitrary operation sequences.
 Covered by correspondence only (driver compares model AND spec with the implementation, no theorem yet):
-compareRange<ExtendedConfig>, extractBigInt/insertBigInt, literal parsing (`parseBitVector`: model in C18/Literal.lean follows the
+compareRange<ExtendedConfig>, insertBigInt, literal parsing (`parseBitVector`: model in C18/Literal.lean follows the
 spirit grammar and the container calls; the driver also checks the digit-by-digit grammar specification `specDigits`) and
 formatting (`operator<<` binary / hex).
 -/
@@ -134,6 +135,13 @@ theorem copyRange_refines (dst src : Plane) (n m dOff sOff size : Nat)
 
 theorem extract_refines (p : Plane) (n off size : Nat) (h : PreX p off size) (hn : off + size ≤ n) :
     extract p off size = specExtract (absPlane p n) off size := extract_spec_eq p n off size h hn
+
+/-- `extractBigInt(vec, offset, size)` is the unsigned number spelled by the addressed bits — for the ≤ 64 bit path and for the
+wide path (full words `import_bits`-ed, trailing partial chunk or-ed on top); `hal` is the code's own assertion
+(`offset % 64 == 0` when `size > 64`). -/
+theorem extractBigInt_refines (p : Plane) (n off size : Nat) (hin : off + size ≤ 64 * p.length) (hn : off + size ≤ n)
+    (hal : size > 64 → off % 64 = 0) :
+    extractBigInt p off size = specBigExtract (absPlane p n) off size := extractBigInt_spec p n off size hin hn hal
 
 theorem resize_refines (p : Plane) (n m : Nat) (hc : Clean p n) :
     absPlane (resizePlane p m) m = specResize (absPlane p n) m := resize_abs p n m hc
